@@ -269,6 +269,29 @@ def parser_streams(check):
     sts.append(Stream("ini-directive-lookalikes", ops))
     sts.append(Stream("ini-spliced-cycles", [G.ini_op(0x3d, d, {**INI_ENV, b"E": b"$"})
                                              for d in spliced_cycle_docs(rng, 150 if tier == "quick" else 3000)]))
+    # formatted texts of every length around the block sizes of DYNAMIC_VSPRINTF (1024 doubled): the
+    # `section.key` names of qconfig (qstrdupf) and qaconf's error message `<path>:<line> <text>` for each
+    # error kind (the harness opens the file under a path of the requested length); a retry loop that never
+    # reaches a fitting block shows as a watchdog timeout
+    sts.append(Stream("ini-name-lengths", [G.ini_op(0x3d, d, {}) for d, _ in G.name_length_docs(rng)],
+                      note="strlen(section) + 1 + strlen(key) = 1020..1029, 2044..2053, 4080..4110, 8180..8200 and random"))
+    sts.append(Stream("aconf-error-message-lengths",
+                      [G.ac_op(fl, dc, doc, table, pathlen=pl) for _k, _t, pl, fl, dc, doc, table, _l in G.errmsg_cases(rng)],
+                      nomodel=(tier == "quick"),
+                      note="every error kind x total message length 1020..1029, 2044..2053, 4080..4110, 8180..8200"
+                           + ("; implementation under the watchdog only (C20 runs these against the model)" if tier == "quick" else "")))
+    # `${!command}`: qsyscmd -> qfile_read reads the (stubbed) output into a growing block; output lengths
+    # around 1024 * 2^k and beyond _MAX_VALUESIZE; qfile_read itself with every kind of nbytes
+    sts.append(Stream("ini-command-output-lengths", [G.ini_op(0x3d, d, {}) for d, _ in G.cmd_length_docs(big=(1048576, 1048577))],
+                      note="stubbed command output of 1000..1030, 2040..2056, 4090..4100, 8190..8194 bytes, 1 MiB, 1 MiB + 1"))
+    huge = [G.ini_op(0x3d, b"a=1\nk=${!R%d}\nz=2\n" % n, {}) for n in (1048575, 2097151, 2097152, 2097153, 3000000, 4194304, 4194305)]
+    sts.append(Stream("ini-command-output-megabytes", huge, nomodel=(tier == "quick"), note="2^20 - 1 .. 2^22 + 1 bytes of output"))
+    sts.append(Stream("file-read-lengths", G.fread_ops(rng, G.FREAD_SMALL), note="streams of 0..4, 1021..1027 bytes x nbytes NULL/0/1/../n+1"))
+    sts.append(Stream("file-read-lengths-large", G.fread_ops(rng, G.FREAD_LARGE), nomodel=(tier == "quick"),
+                      note="2045..2051, 4093..4099, 8191..8193, 16384, 100000 bytes; judged against the documented result"))
+    # more than 2^16 lines: the line of the first offence / the count is not taken modulo anything
+    sts.append(Stream("aconf-line-numbers", [G.ac_op(fl, 0, doc, table) for fl, doc, table, _r, _l in G.line_count_cases()],
+                      note="65534..65540 and 70001 lines, first offence on the last line; as many directives"))
     tbl = AC_TABLES[0]
     sts.append(Stream("aconf-long-lines", [G.ac_op(rng.randrange(4), False, d, tbl) for d in long_line_docs(rng)]))
     sts.append(Stream("aconf-nesting", [G.ac_op(0, False, d, tbl) for d in nesting_docs()]))
@@ -301,12 +324,22 @@ def parser_judge(op, line):
     """C17's oracle for the two parsers: the call returned (no watchdog timeout, no sanitizer abort —
     a missing line is reported by vlib as a crash) with a result or an error"""
     w = op.split(None, 1)[0]
-    if w not in ("ini", "inif", "ac"):
+    if w not in ("ini", "inif", "ac", "acp", "fread"):
         return None
     if line.startswith("timeout"):
         return "parser did not return within the watchdog time"
     if line.startswith("fault"):
         return None          # only the model prints this
+    if w == "fread":
+        f = line.split()
+        if line != "null" and not (len(f) == 4 and f[0] == "ok" and f[3] == "00"):
+            return "qfile_read: neither NULL nor a terminated block: " + line[:80]
+        want = G.fread_expected(op)
+        if line != want:
+            return "qfile_read returned %s, the stream holds %s" % (line[:60], want[:60])
+        return None
+    if w == "acp":
+        w = "ac"
     if w in ("ini", "inif") and not (line.startswith("ok ") or line == "null"):
         return "neither a table nor NULL: " + line[:80]
     if w == "ac" and G.parse_ac_result(line) is None:
@@ -321,10 +354,13 @@ def parser_classify(op, detail):
                                         "crash" if "died" in detail else "result")
     if w and w[0] == "ini":
         if "watchdog" in detail or "TIMEOUT" in detail or "timeout" in detail:
-            return "qconfig._parsestr:self-referential-table-value"
+            # a document without any `${` cannot hang in the expansion
+            return "qconfig._parsestr:self-referential-table-value" if "247b" in w[2] else "qconfig:timeout"
         return "qconfig:" + ("crash" if "died" in detail else "result")
-    if w and w[0] == "ac":
-        return "qaconf:" + ("crash" if "died" in detail else "result")
+    if w and w[0] in ("ac", "acp"):
+        return "qaconf:" + ("timeout" if "watchdog" in detail or "imeout" in detail.lower() else "crash" if "died" in detail else "result")
+    if w and w[0] == "fread":
+        return "qfile_read:" + ("crash" if "died" in detail else "result")
     return "unclassified"
 
 
